@@ -32,6 +32,7 @@ const modPath = "github.com/ostafen/clover/v2"
 var (
 	verifDir = envOr("VERIF_DIR", "/verif")
 	repoDir  = envOr("VERIF_REPO", "/repo")
+	outDir   = envOr("VERIF_OUT", envOr("VERIF_DIR", "/verif")) // evidence/, replays/, work/ (redirected for trial runs against scratch trees)
 )
 
 func envOr(k, d string) string {
@@ -393,7 +394,7 @@ type Replay struct {
 }
 
 func writeReplay(prop string, hm HarnessMeta, v sym.Violation, n int) (string, error) {
-	dir := filepath.Join(verifDir, "replays", prop)
+	dir := filepath.Join(outDir, "replays", prop)
 	os.MkdirAll(dir, 0o755)
 	p := filepath.Join(dir, fmt.Sprintf("%s-%d.json", hm.Name, n))
 	rp := Replay{Property: prop, Harness: hm.Name, Package: hm.Pkg, Dir: hm.Dir, Kind: v.Kind, Label: v.Label, Msg: v.Msg, Choices: v.Choices, Values: v.Model}
@@ -424,7 +425,7 @@ func nativeReplay(path string) (replayOutcome, error) {
 	if err != nil {
 		return out, err
 	}
-	work := filepath.Join(verifDir, "work", fmt.Sprintf("replay-%d-%d", os.Getpid(), time.Now().UnixNano()))
+	work := filepath.Join(outDir, "work", fmt.Sprintf("replay-%d-%d", os.Getpid(), time.Now().UnixNano()))
 	os.MkdirAll(work, 0o755)
 	defer os.RemoveAll(work)
 	repl := map[string]string{}
@@ -924,9 +925,9 @@ func cmdCheck(prop, tier string, only *regexp.Regexp) int {
 		"assumptions": assumptionsFor(prop, fStub, fIntr),
 	}
 	if only == nil || prop != "DEV" {
-		os.MkdirAll(filepath.Join(verifDir, "evidence"), 0o755)
+		os.MkdirAll(filepath.Join(outDir, "evidence"), 0o755)
 		b, _ := json.MarshalIndent(ev, "", " ")
-		os.WriteFile(filepath.Join(verifDir, "evidence", prop+".json"), b, 0o644)
+		os.WriteFile(filepath.Join(outDir, "evidence", prop+".json"), b, 0o644)
 	}
 	fmt.Fprintf(os.Stderr, "%s %s: harnesses=%d jobs=%d paths=%d asserts=%d (solver-decided %d) queries=%d solver=%.1fs wall=%.1fs violations=%d known=%d inconclusive=%d => exit %d\n",
 		prop, tier, len(selected), len(jobs), agg.paths, agg.asserts, agg.nontriv, agg.solverQ, agg.solverTime.Seconds(), time.Since(start).Seconds(), nViol, len(knownLines), len(uniq(inconclusive)), exit)
